@@ -34,3 +34,14 @@ CHECKS['C18'] = dict(
         'RandomRangeNonUniform 0<=min<=max<INT_MAX, 0<=x<INT_MAX; Gamma ia 0..50; Zipf skew in (1,10], limit>=1',
         'the all-zero xoshiro state is excluded (documented invalid state of the generator family)',
     ])
+
+CHECKS['C19'] = dict(
+    stages=[
+        stage('h_topology', ['h_topology.c'],
+              quick=dict(cases=24000, min_nontrivial=2000, time_budget=120),
+              thorough=dict(cases=480000, min_nontrivial=20000, time_budget=1200)),
+    ],
+    assumptions=[
+        'source regions are inside the topology; graph link probabilities are in [0,1]',
+        'concurrency is explored with 4 real threads (x86-TSO interleavings only), each using its own LP context',
+    ])
